@@ -80,8 +80,26 @@ def run(ctx):
             i, op, im, mo = min(c.mismatch, key=lambda t: len(t[1]))
             ctx.violation({"kind": "correspondence `R` (what the real reader returns for a text vs the reader models ReaderP / ReaderFull) no longer checks", "leg": "reader",
                            "case": op, "impl": im[:1500], "model": mo[:1500], "mismatches_in_run": len(c.mismatch)}, no_input=True)
+    # the whole pipeline (parse, validate_pairs, consume_rules, validate_ast, optimize): `rules n` / `errors n` of the real
+    # parse_and_optimize against PestModel.Pipeline.parseAndOptimize on the same sample (F lines through the read mode)
+    pf = os.path.join(rd, "f_ops.txt")
+    open(pf, "w").write("\n".join("F " + h for h in sample) + "\n")
+    okb, outb, bindir2, _ = cargo_build("default", [DRV])
+    cp = correspond("pipeline", os.path.join(bindir2, DRV), ["run", pf], "read", os.path.join(rd, "pipe")) if okb else None
+    pipe_stats = {}
+    if cp is None or cp.error:
+        ctx.violation({"correspondence": "pipeline", "error": (cp.error if cp else outb[-1500:])}, no_input=True)
+    else:
+        real = [t for t in cp.mismatch if not t[3].startswith("stuck") and not t[2].startswith(("TIMEOUT", "ABORT"))]
+        pipe_stats = {"texts": cp.n, "mismatches": len(real)}
+        if real:
+            i, op, im, mo = min(real, key=lambda t: len(t[1]))
+            ctx.violation({"kind": "correspondence `F` (rules / number of errors returned by the real parse_and_optimize vs the pipeline model PestModel.Pipeline) no longer checks", "leg": "pipeline",
+                           "case": op, "impl": im[:600], "model": mo[:600], "mismatches_in_run": len(real)}, no_input=not im.startswith("PANIC"))
     ev_path = os.path.join(EVIDENCE, f"{ctx.prop}.json")
     ev = json.load(open(ev_path))
+    ev["coverage"]["distribution"] = dict(ev["coverage"].get("distribution", {}), pipeline_model=pipe_stats)
+    json.dump(ev, open(ev_path, "w"), indent=1)
     ev["coverage"]["distribution"] = dict(ev["coverage"].get("distribution", {}), reader_models={"texts": len(sample), "real_reader_outcomes": classes, "mismatches": len(c.mismatch) if not c.error else None})
     ev["coverage"]["traces_validated_against_impl"] = ev["coverage"].get("traces_validated_against_impl", 0) + len(sample)
     ev["violations"] = len(ctx.violations)
@@ -93,4 +111,6 @@ def replay(ctx, path):
     r = json.load(open(path))
     if r.get("leg") == "reader":
         return replay_generic(ctx, path, "drv_read", "read")
+    if r.get("leg") == "pipeline":
+        return replay_generic(ctx, path, DRV, "read")
     return replay_generic(ctx, path, DRV, None)
